@@ -671,4 +671,6 @@ V("c08-p2c-one-refused", "C08", "break", "R08.5", "an iteration count of 1 is re
   "rfc7518/jwe_algs.py", "        if p2c < 1 or p2c > self.MAX_P2C:", "        if p2c <= 1 or p2c > self.MAX_P2C:")
 V("c08-benign-p2c-mirrored", "C08", "benign", "", "lower bound written with the constant on the left",
   "rfc7518/jwe_algs.py", "        if p2c < 1 or p2c > self.MAX_P2C:", "        if 1 > p2c or p2c > self.MAX_P2C:")
+V("c16-use-not-str-checked", "C16", "break", "E2f", "use / key_ops consistency hashes `use` without the str check (use given as a list -> TypeError)",
+  "rfc7517/models.py", "            if not isinstance(_use, str) or _use not in cls.use_key_ops_registry:", "            if _use not in cls.use_key_ops_registry:")
 
